@@ -340,6 +340,12 @@ def check_validate_scheme(ctx: Ctx, rule: str):
         ctx.undecided(rule, key, f"validate_scheme returns `{_av.show(v)[:100]}`; whether that is the request in its order is not decided", f.where())
 
 
+def _br18(v, conds=()):
+    from .c03 import _branches
+
+    return _branches(v, conds)
+
+
 def check_output_path(ctx: Ctx, rule: str):
     """gotran2py.main / gotran2c.main: the file written is the given output name itself (with the suffix), or the
     model's own path when none is given - read from the receiver of the write_text call."""
@@ -369,6 +375,31 @@ def check_output_path(ctx: Ctx, rule: str):
             ctx.fail(rule, key, f"{short}::main writes to `{_av.show(target)[:110]}`: the output name given with -o is " + ("combined with another path" if _mentions_param(target, "outname") else "ignored") + ", not used as given", main.where())
         else:
             ctx.undecided(rule, key, f"{short}::main writes to `{_av.show(target)[:110]}`; whether that is the given output name is not decided", main.where())
+    # cellml2ode: the converted model is saved under the given name as it is; without one, next to the input as .ode
+    cm = ctx.sm.func("cli/cellml2ode.py", "main", required=False)
+    if cm is not None:
+        A = util.AV(ctx)
+        n0 = len(A.call_log)
+        A.returned(cm)
+        saves = [v for _f, _n, v in A.call_log[n0:] if v[0] == "mcall" and v[2] == "save" and len(v[3]) == 1]
+        key = cm.key("output-path")
+        if not saves:
+            ctx.undecided(rule, key, "cli/cellml2ode.py::main: the save call is not found in what the function does", cm.where())
+        else:
+            target = saves[-1][3][0]
+            fn, on = ("sym", "fname"), ("sym", "outname")
+            wants = [_av.mk_if(("cmp", "is", on, _av.NONE), ("mcall", fn, "with_suffix", (_av.C(".ode"),), ()), ("call", "pathlib.Path", (on,), ()))]
+            if target in wants:
+                ctx.ok(rule, key, "saves to the given name, or <input>.ode", cm.where())
+            elif _av.has_unk(target):
+                ctx.undecided(rule, key, "cli/cellml2ode.py::main: where the model is saved is not understood", cm.where())
+            else:
+                given = [leaf for _c, leaf in _br18(target) if _mentions_param(leaf, "outname")]
+                altered = [leaf for leaf in given if leaf not in (("call", "pathlib.Path", (on,), ()), on)]
+                if altered or not given:
+                    ctx.fail(rule, key, f"cli/cellml2ode.py::main saves to `{_av.show(target)[:110]}`: the output name given with -o is " + ("changed (suffix replaced / combined with another path)" if given else "ignored") + ", not used as given", cm.where())
+                else:
+                    ctx.undecided(rule, key, f"cli/cellml2ode.py::main saves to `{_av.show(target)[:110]}`; whether that honours the given name is not decided", cm.where())
     if len(seen) == 2:
         a, b = seen.values()
         ctx.check(a == b, rule, "src/gotranx/cli::main::output-path-siblings", "gotran2py.main and gotran2c.main derive the output path in the same way", f"gotran2py.main writes to `{_av.show(a)[:80]}` but gotran2c.main to `{_av.show(b)[:80]}`: ode2py and ode2c treat the same -o option differently", "")
